@@ -9,7 +9,7 @@
 int main(int argc, char **argv) {
   std::ios::sync_with_stdio(false);
   std::string line;
-  long long n = 0, bad = 0, skipped = 0;
+  long long n = 0, bad = 0, skipped = 0, implSame = 0, implSeen = 0;
   bool all = argc > 1 && std::string(argv[1]) == "--all";
   while (std::getline(std::cin, line)) {
     vj::Value v;
@@ -32,6 +32,10 @@ int main(int argc, char **argv) {
     }
     ++n;
     bool ok = res["ok"].asBool();
+    if (res.has("impl")) {
+      ++implSeen;
+      if (res["impl"].asBool()) ++implSame;
+    }
     if (!ok) ++bad;
     if (!ok || all || res.has("emit")) {
       res.set("case", v);
@@ -39,7 +43,7 @@ int main(int argc, char **argv) {
     }
   }
   vj::Value s = vj::Value::object();
-  s.set("summary", true).set("n", n).set("bad", bad).set("skipped", skipped);
+  s.set("summary", true).set("n", n).set("bad", bad).set("skipped", skipped).set("impl_seen", implSeen).set("impl_same", implSame);
   std::cout << s.str() << std::endl;
   return 0;
 }
